@@ -43,7 +43,7 @@ theorem MInv.settle {ex} {s s' : State} (h : MInv ex s) {t t' : Task} (ht : aloo
     (hst : s'.tasks = aset t.id t' s.tasks) (hnt : s'.nextTask = s.nextTask) (hno : s'.nextOp = s.nextOp)
     (hsw : s'.workers = s.workers ∧ t.worker = none ∨ ∃ q w wk, t.worker = some (q, w) ∧ wfind s.workers q w = some wk ∧
       s'.workers = wset s.workers { wk with task := none }) :
-    MInv (fun k => ex k ∨ k = t.id) s' := by
+    MInv (fun k => ex k ∨ (k = t.id ∧ t'.response = none)) s' := by
   minv_facts h
   obtain ⟨a, b, c, d⟩ := hk
   rcases hsw with ⟨hsw, e0⟩ | ⟨q, w, wk, e1, e2, hsw⟩
